@@ -35,6 +35,7 @@ type loopInfo struct {
 	entryHeap map[string]string
 	variant0  []string
 	hdrState  *State
+	preState  *State
 	objs      map[string][]string
 }
 
